@@ -7,7 +7,9 @@ from checks import ingressfam as ing
 RULE = ("MC: every row of the abstract (configuration, request) tables of IngressMC (families A: order / channel / overlapping "
         "paths, B: every match criterion alone and combined, before / after other routes) is an initial state and satisfies the "
         "design-level facts of Ingress.tla (first inbound match, only inbound resolved, Allow sound, 404/405 without effect). "
-        "GEN: TLC prints every configuration with its complete request set; every configuration is written as a Hookaidofile, "
+        "GEN: TLC prints every configuration with its complete request set; every configuration is written as a Hookaidofile "
+        "(twice when it has match criteria: inline match blocks for the plain request of each row, and the same criteria "
+        "sets spelled through named matchers - one, two, split with an inline block - for the varied requests), "
         "compiled by the real config package, booted through app.VerifBoot, and every abstract row is sent as concrete requests "
         "(plain rendering + seeded variants sent as raw paths: dot-segments incl. a final '..' / '.' climbing out of another route's "
         "path, %2e%2e, doubled / trailing slashes, percent-encoding, Host case / port / "
@@ -50,6 +52,11 @@ def run(ctx):
     for c in ("path", "method", "host", "hdr", "q", "ip"):
         ing.require(ctx, cov["sat"][c] > 0, "criterion %s never held as the deciding criterion" % c)
         ing.require(ctx, cov["viol"][c] > 0, "criterion %s never failed as the deciding criterion" % c)
+    # every criterion kind of the configuration language decided a route while written through a named matcher
+    # (`@name { ... }` + `match @name`), with a request that satisfies it and one that does not
+    for f in ("method", "host", "header", "header_exists", "query", "query_exists", "remote_ip"):
+        ing.require(ctx, cov["named_sat"][f] > 0, "criterion kind %s never held while spelled through a named matcher" % f)
+        ing.require(ctx, cov["named_viol"][f] > 0, "criterion kind %s never failed while spelled through a named matcher" % f)
     pos = ing.channel_positions(table)
     for ch in ("inbound", "outbound", "internal"):
         for p in ("first", "middle", "last"):
@@ -61,7 +68,8 @@ def run(ctx):
     # raw-path renderings that separate a complete clean-up of the request path from a partial one: a final ".." that
     # climbs out of ANOTHER route's path (plain, percent-encoded, with trailing slash), "." / empty final segments
     pv = ing.count_variants(files, ["path:climb-route", "path:climbpct-route", "path:climbslash-route", "path:climb", "path:enddot",
-                                    "path:dotdot", "path:dslash", "path:tslash", "path:pct", "host:dotport", "ip:noport"])
+                                    "path:dotdot", "path:dslash", "path:tslash", "path:pct", "host:dotport", "ip:noport",
+                                    "spell:named", "spell:two", "spell:split", "spell:twoinline"])
     ctx.cov["counters"]["variants"] = pv
     for n, v in pv.items():
         ing.require(ctx, v > 0, "concretisation variant %s never sent" % n)
